@@ -45,6 +45,18 @@ def generate(name, constants, depth=None, simulate=None, simdepth=None, workers=
     return r['behaviours'], r
 
 
+def generate_from(module, name, constants, workers=4, timeout=900, max_behaviours=None):
+    """Behaviours from a stand-alone generator module (every state prints one behaviour through the invariant Emit)."""
+    wd = workdir('gen_' + name)
+    cfg = os.path.join(wd, 'gen.cfg')
+    write_cfg(cfg, constants=constants, invariants=['Emit'])
+    r = run_tlc(module, cfg, wd, workers=workers, timeout=timeout, collect_replays=max_behaviours or 10 ** 7)
+    v = violated(r['out'])
+    if v:
+        raise ToolError(f'generator {name}: unexpected violation {v}')
+    return r['behaviours'], r
+
+
 def replay(name, behaviours, style=0, extra_env=None):
     wd = workdir('replay_' + name)
     inp = os.path.join(wd, 'behaviours.ndjson')
@@ -110,6 +122,11 @@ def validate(name, trace_path, nproc=8):
         outofdomain += out.count('<<"OUTOFDOMAIN"')
         for ln, exp in parse_tlc_output(out):
             rec = json.loads(lines[ln - 1])
+            if rec['ev'] == 'Parse':
+                k = ln - 1
+                while k > 0 and not lines[k].startswith('{"ev":"Reset"'):
+                    k -= 1
+                rec['_reset'] = json.loads(lines[k])['a']
             m = dict(line=first + ln - 1, rec=rec, exp=exp)
             diffs = mismatch_diffs(m)
             props = ','.join(sorted(attribute(m, diffs)))
@@ -162,6 +179,28 @@ def mismatch_diffs(m):
                     d.append((f'row[{o["op"]}{",all" if o["all"] else ""}{",neg" if o["negate"] else ""}{",ws" if o["ws"] else ""}{",limit" if o["limit"] else ""}]{kind}',
                               dict(o=o, ranges=e['rows'][i]), g['rows'][i]))
             return d
+        if rec['ev'] == 'Parse':
+            a = rec['a']
+            d = []
+            if rec['outcome'] == 'panic':
+                d.append(('parse.panic', 'ok|err', 'panic'))
+            elif not a['mutated'] and rec['outcome'] != 'ok':
+                d.append(('parse.rejected', 'ok', rec['outcome']))
+            elif rec['outcome'] == 'ok':
+                if not a['mutated'] and a['built'] and g['ast0'] != a['ast']:
+                    d += [('parse.built_ast' + norm_path(p)[2:], x, y) for p, x, y in diff(a['ast'], g['ast0'], 'q')][:3]
+                if not a['mutated'] and g['ast1'] != a['ast']:
+                    d += [('parse.ast' + norm_path(p)[2:], x, y) for p, x, y in diff(a['ast'], g['ast1'], 'q')][:3]
+                if not g['print_ok']:
+                    if not a['mutated']:
+                        d.append(('parse.print', 'ok', 'err'))
+                elif not g['reparse_ok']:
+                    d.append(('parse.reparse', 'ok', 'err'))
+                elif g['ast2'] != g['ast1']:
+                    d += [('parse.reparse_ast' + norm_path(p)[2:], x, y) for p, x, y in diff(g['ast1'], g['ast2'], 'q')][:3]
+                elif g['d1'] != g['d2']:
+                    d.append(('parse.reprint', 'identical', 'differs'))
+            return d or [('parse', 'accepted', 'rejected by ParseOK')]
         if rec['ev'] == 'WebAnno' and isinstance(g, dict) and isinstance(e, dict):
             if e.get('wf') != g.get('wf') or e.get('ok') != g.get('ok'):
                 return [('webanno.' + k, e.get(k), g.get(k)) for k in ('ok', 'wf') if e.get(k) != g.get(k)]
@@ -266,7 +305,7 @@ def attribute(m, diffs):
 
 READONLY_OWNER = {'Lookup': 'C03', 'TextSel': 'C04', 'AnnTextOf': 'C04', 'OffsetReport': 'C04', 'Utf8Byte': 'C12',
                   'ByteToChar': 'C12', 'TextOp': 'C07', 'TestRelation': 'C13', 'RelatedText': 'C06',
-                  'TestRelationRow': 'C13', 'RelatedRow': 'C06', 'Validate': 'C18', 'WebAnno': 'C17'}
+                  'TestRelationRow': 'C13', 'RelatedRow': 'C06', 'Validate': 'C18', 'WebAnno': 'C17', 'Parse': 'C09'}
 
 
 def _has_offset(t):
@@ -299,6 +338,18 @@ def arg_features(rec):
             f.append('off=' + a['off']['bk'] + a['off']['ek'])
     elif ev == 'OffsetReport':
         f.append('m=%d' % a['m'])
+    elif ev == 'Parse':
+        f.append('mutated' if a['mutated'] else ('built' if a['built'] else 'grammar'))
+        kinds = sorted(set(c['k'] for c in a['ast'].get('cs', [])))
+        if kinds:
+            f.append('cs=' + '+'.join(kinds))
+        if a['ast'].get('subs'):
+            f.append('subs')
+        if a['mutated']:
+            f.append('text=' + (rec.get('api') or {}).get('text', '')[:60])
+        sty = (rec.get('_reset') or {}).get('style', 0)
+        if sty in (1, 4):
+            f.append('idstyle=' + {1: 'quote', 4: 'pipe'}[sty])
     elif ev == 'WebAnno':
         f.append('tmpl=%s,ns=%s' % (a['tmpl'], a['ns']))
     elif ev == 'RoundTrip':
@@ -326,6 +377,8 @@ def arg_features(rec):
 def fingerprint(m, diffs):
     rec, exp = m['rec'], m['exp']
     paths = sorted(set(norm_path(p) for p, _, _ in diffs))
+    if exp.get('readonly') and rec['ev'] == 'Parse':
+        return '|'.join(['Parse', 'got=' + rec['outcome'], ','.join(sorted(set(re.sub(r'\[\*\]', '', p) for p in paths))), ','.join(arg_features(rec))])
     if exp.get('readonly') and rec['ev'] in ('TestRelationRow', 'RelatedRow', 'WebAnno'):
         return '|'.join([rec['ev'], 'exp=ro', 'got=' + rec['outcome'], ','.join(paths), ','.join(arg_features(rec))])
     if exp.get('roundtrip'):
